@@ -4,6 +4,9 @@ import Crv.Generated.Repo
 Model of CRL signer selection and signature acceptance (core/certificatechains.go:
 NewCertificateChains / FindCertificateIssuerCandidates, crl/crlrevocationchecker.go:issuerChains,
 crl/crlrepository/crlrepository.go:verifyCRLSignature) — C04.
+The order and guards of the AKI rules are not hard-coded: `findCandidates` interprets `candRules` / `candNoRuleIsError`, which the
+translator regenerates from the if / else-if chain of `FindCertificateIssuerCandidates`; a rule run without the field its loop
+dereferences ends in `CandRes.panic`.
 Names and key identifiers are abstract numbers; `sigOK key` is the opaque statement "the signature over the
 digest of tbsCertList verifies under this public key with the declared algorithm" (the cryptography is trusted).
 -/
@@ -51,21 +54,70 @@ structure AKI where
 inductive CandRes
   | ok (l : List Avail)
   | err
+  | panic                   -- Go run-time panic (nil-pointer dereference) inside the candidate search
   deriving DecidableEq, Repr
 
-/-- `FindCertificateIssuerCandidates` (RFC 5280 §5.2.1): by name and key algorithm without AKI; by issuer+serial when the
-AKI carries a serial; else by key identifier; an AKI with neither is an error. -/
-def findCandidates (crlIssuer : Nat) (aki : Option AKI) (alg : KeyAlg) (av : List Avail) : CandRes :=
+/-- Is the AKI field a rule guard names present? "serial": `AuthorityCertSerialNumber != nil`; "issuer": directoryName bytes
+non-empty; "keyid": `KeyIdentifier != nil`. A field name the model does not know is never present (the rule cannot fire). -/
+def fieldPresent (a : AKI) (f : String) : Bool :=
+  if f = "serial" then a.certSerial.isSome
+  else if f = "issuer" then a.certIssuer.isSome
+  else if f = "keyid" then a.keyId.isSome
+  else false
+
+/-- The AKI names an issuer (directoryName present, non-empty) and it equals the certificate's issuer name. -/
+def issuerMatches (a : AKI) (x : Avail) : Bool :=
+  match a.certIssuer with
+  | some n => x.cert.issuerName == n
+  | none => false
+
+/-- `findCertificateBySerialAndIssuer`: serial equal AND issuer name present and equal. Without a serial in the AKI the loop
+body evaluates `certCandidate.Certificate.SerialNumber.Cmp(nil)` for the first available certificate — a nil-pointer
+dereference; with no certificate available the body never runs. -/
+def serialIssuerRule (a : AKI) (av : List Avail) : CandRes :=
+  match a.certSerial with
+  | some s => .ok (av.filter fun x => x.cert.serial == s && issuerMatches a x)
+  | none => if av.isEmpty then .ok [] else .panic
+
+/-- `findCertificateCandidatesFromKeyIdentifier`: subjectKeyIdentifier equal to the AKI's key identifier
+(total: a nil key identifier equals no decoded subjectKeyIdentifier). -/
+def keyIdRule (a : AKI) (av : List Avail) : CandRes :=
+  match a.keyId with
+  | some k => .ok (av.filter fun x => x.cert.ski == some k)
+  | none => .ok []
+
+/-- Body of the rule of that name; `none`: a rule name the model does not know (treated as not firing). -/
+def runRule (name : String) (a : AKI) (av : List Avail) : Option CandRes :=
+  if name = "serial+issuer" then some (serialIssuerRule a av)
+  else if name = "keyid" then some (keyIdRule a av)
+  else none
+
+/-- The if / else-if chain: the first rule whose guard fields are all present fires. `none`: no rule fired. -/
+def interpRules (a : AKI) (av : List Avail) : List (String × List String) → Option CandRes
+  | [] => none
+  | (name, req) :: t =>
+    if req.all (fieldPresent a) then
+      match runRule name a av with
+      | some r => some r
+      | none => interpRules a av t
+    else interpRules a av t
+
+/-- `FindCertificateIssuerCandidates` (RFC 5280 §5.2.1) for a given rule chain: by name and key algorithm without AKI; with an
+AKI the first rule of `rules` whose guard holds; no rule: an error (`noRuleErr`) or no candidates. -/
+def findCandidatesWith (rules : List (String × List String)) (noRuleErr : Bool)
+    (crlIssuer : Nat) (aki : Option AKI) (alg : KeyAlg) (av : List Avail) : CandRes :=
   match aki with
   | none => .ok (av.filter fun a => a.cert.subject == crlIssuer && a.cert.keyAlg == alg)
   | some a =>
-    match a.certSerial with
-    | some s => .ok (av.filter fun x => x.cert.serial == s &&
-        (match a.certIssuer with | some n => x.cert.issuerName == n | none => false))
-    | none =>
-      match a.keyId with
-      | some k => .ok (av.filter fun x => x.cert.ski == some k)
-      | none => .err
+    match interpRules a av rules with
+    | some r => r
+    | none => if noRuleErr then .err else .ok []
+
+/-- `FindCertificateIssuerCandidates` with the rule chain the translator regenerates from the source on every run
+(`candRules`, `candNoRuleIsError`): today by issuer+serial when the AKI carries a serial; else by key identifier; an AKI with
+neither is an error. -/
+def findCandidates (crlIssuer : Nat) (aki : Option AKI) (alg : KeyAlg) (av : List Avail) : CandRes :=
+  findCandidatesWith candRules candNoRuleIsError crlIssuer aki alg av
 
 def kuAllows (c : CertA) : Bool :=
   match c.keyUsage with
@@ -80,11 +132,22 @@ def firstVerifying (sigOK : Nat → Bool) : List Avail → Option Avail
     else if sigOK a.cert.key then some a
     else firstVerifying sigOK t
 
+/-- Outcome of `verifyCRLSignature` on top of the candidate search. -/
+inductive VerifyRes
+  | accepted (a : Avail)    -- the signature verifies under this candidate's key
+  | rejected                -- candidate search failed with an error, or no candidate verifies
+  | panic                   -- the candidate search panicked
+  deriving DecidableEq, Repr
+
 def verifyCRL (sigOK : Nat → Bool) (crlIssuer : Nat) (aki : Option AKI) (alg : KeyAlg)
-    (verified : List (List CertA)) (trusted : List CertA) : Option Avail :=
+    (verified : List (List CertA)) (trusted : List CertA) : VerifyRes :=
   match findCandidates crlIssuer aki alg (available verified trusted) with
-  | .err => none
-  | .ok l => firstVerifying sigOK l
+  | .err => .rejected
+  | .panic => .panic
+  | .ok l =>
+    match firstVerifying sigOK l with
+    | some a => .accepted a
+    | none => .rejected
 
 /-- Matches the CRL's issuer name or its authority key identifier. -/
 def matchesCRL (crlIssuer : Nat) (aki : Option AKI) (c : CertA) : Prop :=
